@@ -238,6 +238,8 @@ def parseDesc : String → Option Bool
   | "asc" => some false
   | "desc" => some true
   | "default" => some true    -- timed.NewPriorityQueue() without argument is descending
+  | "asc2" => some false      -- timed.NewPriorityQueue(true, false): only the first argument counts
+  | "desc2" => some true      -- timed.NewPriorityQueue(false, true)
   | _ => none
 
 /-- The comparator kinds of the tie (the harness has one Go priority type per kind). -/
